@@ -341,6 +341,31 @@ func (s *System) findMailbox(ref *Ref) vivid.Mailbox {
 			return v
 		}
 	}
-	// 若上述皆未命中，返回系统根 Actor 的 Mailbox 作为默认兜底方案，保证 Mailbox 一定可用。
-	return s.Mailbox()
+	// 根 Actor 自身不在 actorContexts 中登记，发给它的消息直接使用其 Mailbox。
+	if ref.GetPath() == s.Ref().GetPath() {
+		return s.Mailbox()
+	}
+
+	// 本地路径上不存在任何 Actor：交由死信邮箱处理，保证 Mailbox 一定可用。
+	// 此处不能以根 Actor 的 Mailbox 兜底，否则根 Actor 会将该消息当作发给自身的消息处理：
+	// 普通消息被静默吞掉，系统消息（如 Kill）则会作用于根 Actor 自身。
+	return deadLetterMailbox{system: s}
 }
+
+// deadLetterMailbox 是发往本地不存在路径的消息的去处：入队的消息将作为死信投递给守护 Actor。
+type deadLetterMailbox struct {
+	system *System
+}
+
+func (m deadLetterMailbox) Enqueue(envelop vivid.Envelop) {
+	m.system.TellSelf(ves.DeathLetterEvent{
+		Envelope: envelop,
+		Time:     time.Now(),
+	})
+}
+
+func (m deadLetterMailbox) Pause() {}
+
+func (m deadLetterMailbox) Resume() {}
+
+func (m deadLetterMailbox) IsPaused() bool { return false }
